@@ -1200,22 +1200,32 @@ class TaskScenario(ScenarioData):
         if not alternative_resources:
             return primary_resources
 
-        # If no primaries, use alternatives
+        # Alternatives are candidates, not a team: the one that would finish first stands in
+        # (the first listed on a tie)
+        best_alternative: Optional[Any] = None
+        alternative_end: Optional[datetime] = None
+        for candidate in alternative_resources:
+            candidate_end = self._estimateCompletionTime([candidate], effort)
+            if candidate_end is not None and (alternative_end is None or candidate_end < alternative_end):
+                best_alternative, alternative_end = candidate, candidate_end
+        if best_alternative is None:
+            best_alternative = alternative_resources[0]
+
+        # If no primaries, use the best alternative
         if not primary_resources:
-            return alternative_resources
+            return [best_alternative]
 
         # Smart routing: compare completion times
         # Calculate when each path would complete the task
 
         primary_end = self._estimateCompletionTime(primary_resources, effort)
-        alternative_end = self._estimateCompletionTime(alternative_resources, effort)
 
         # Choose the path that finishes earlier
         if alternative_end is not None and (primary_end is None or alternative_end < primary_end):
             # Store which resource was selected for reporting
             if not hasattr(self, "_selectedAlternative"):
                 self._selectedAlternative = True
-            return alternative_resources
+            return [best_alternative]
         else:
             if not hasattr(self, "_selectedAlternative"):
                 self._selectedAlternative = False
